@@ -517,6 +517,18 @@ fn main() {
                 _ => "PatchArm",
             };
             snippet = snippet.replace("@PATCHER@", &patcher_of(&text, default_patcher));
+            // the stub emitter is optional: when this file has no function of the expected shape the
+            // accessor returns an empty vector (the generators then skip the pure stub lines; boolean
+            // installations are still exercised through the public API)
+            {
+                let key = if name == "patch_arm64.rs" { "@BOOL_STUB64@" } else { "@BOOL_STUB@" };
+                if let Some((_, fname)) = bindings.iter().find(|(k, _)| k == key) {
+                    let defined = text.contains(&format!("fn {}(", fname)) || text.contains(&format!("fn {} (", fname));
+                    if !defined {
+                        snippet = snippet.replace("@BOOL_STUB@(buf.as_mut_ptr(), value);", "buf.clear(); let _ = value;");
+                    }
+                }
+            }
             if name == "patch_arm64.rs" {
                 let b64 = bindings.iter().find(|(k, _)| k == "@BOOL_STUB64@").map(|(_, v)| v.clone()).unwrap();
                 snippet = snippet.replace("@BOOL_STUB@", &b64);
